@@ -13,6 +13,10 @@ CHECKS = {
          "Generated tables and predicate trees (depth <= 3, constants drawn inside, at the edges of and outside each column's range and encoding, strings present in / absent from the dictionary) judged by an independent three-valued-logic evaluator; rows must match exactly and in order. Classes the unchanged engine gets wrong are listed as known findings, excluded by construction and counted.",
          "DESIGN.md 4 C03", "Reference evaluator (eval.rs) is the trusted base; int-vs-float compares convert the int to f64; queries whose AND/OR sees a NULL operand are not judged while KF-connective-null is open.",
          "property-based testing (proptest) with a reference evaluator (differential oracle)"),
+ "C05": ("exploration",
+         "Generated tables (1-5 partitions), key lists of 1-3 columns/expressions with mixed directions, limits and offsets in 0..rows+2 weighted around half the partition length; judged in both directions by a validity predicate (length, key tuple per position, rows distinct and genuine, cells equal the model; ingestion order without ORDER BY).",
+         "DESIGN.md 4 C05", "Reference order from eval.rs; ties may permute; shapes listed as known findings (expression keys under streaming, multi-key with NULL leading key, nullable top-n, key Null-typed in a partition) are excluded by construction and counted.",
+         "property-based testing (proptest) with a validity-predicate oracle over a reference order"),
 }
 
 NOT_YET = {
